@@ -8,10 +8,11 @@ Open Scope Z_scope.
 Section Builder.
   Variable sigt : gnss -> sigtable.
   Variable ssr59 ssr65 : sigtable.
+  Variable cap59 cap65 : Z.
   Variable table : list (Z * frag).
 
-  Notation build := (build sigt ssr59 ssr65 table).
-  Notation build_on := (build_on sigt ssr59 ssr65 table).
+  Notation build := (build sigt ssr59 ssr65 cap59 cap65 table).
+  Notation build_on := (build_on sigt ssr59 ssr65 cap59 cap65 table).
 
   Definition fresh_data : list Z := 211 :: repeat 0 1028.
 
@@ -58,7 +59,7 @@ Section Builder.
     destruct (lookup n table) as [lay|]; [|discriminate].
     intros H. bind_inv H. destruct (_ <? _); [discriminate|]. inversion H; subst. clear H.
     match goal with E1 : put _ _ _ _ _ _ = Ok ?a |- _ => destruct a as [d0 o0]; apply put_len in E1; destruct E1 as [L0 _] end.
-    match goal with E1 : encode_frag _ _ _ _ _ _ = Ok _ |- _ => apply encode_frag_len in E1; cbn [fst] in E1 end.
+    match goal with E1 : encode_frag _ _ _ _ _ _ _ _ = Ok _ |- _ => apply encode_frag_len in E1; cbn [fst] in E1 end.
     match goal with E1 : usub _ _ = Ok ?z |- _ => unfold usub in E1; destruct (_ <=? _) eqn:Hle in E1; [|discriminate]; inversion E1; subst z end.
     apply Z.leb_le in Hle.
     set (st := a0) in *.
